@@ -338,6 +338,35 @@ def plan_C12(ctx):
     ctx.exhaustive = True
 
 
+OSS_RULE = ("A: every history of <= MaxLen calls on an operation schema and its environment (InsertBase, InsertOperation incl. refused ones, "
+            "Erase incl. non-leaves, ConnectNew = the environment creates a source and the pictogram is connected to it, Edit = the user "
+            "changes the schema held by a source (base set added / removed, text only, a term added to a result), Save = the source "
+            "manager announces the pending change, InitFor merge / synthesis with and without equation table, Execute, ExecuteAll), from "
+            "the presets 'empty', 'chain' (l2 = op(op(b1,b2), b3)), 'diamond' (top = op(op(b1,b2), op(b2,b3))), 'synt' (equation table, "
+            "grandchild over a shared base); generated by TLC from OSS.tla with the predicted pictograms, parents, statuses, flags and "
+            "contents after the last call and after announcing everything.  Structure and Fresh (C19 on the model) are TLC invariants.  "
+            "Replayed on a real OSSchema with upstream's FakeSourceManager as environment: structure invariants after every call "
+            "(two distinct existing parents, acyclic, one grid cell, one handle, only leaves erased), after every successful Execute the "
+            "stored result against ops::BinarySynthes on the parents' current schemas and the user's additions carried over, and for "
+            "every operation that reports done the same comparison once everything has been announced.  non-trivial = >= 2 calls. ")
+
+
+def plan_C19(ctx):
+    b = vcore.build()
+    h = hbin(b, "h_oss")
+    ctx.rule = OSS_RULE
+    ctx.assumptions = ["the source manager is upstream's test double (ccl/core/test/utils/FakeSourceManager.hpp); sources stay open, close / re-open events are not generated",
+                       "schemas are abstracted in the model to (base sets, inherited terms, user-added terms); equation tables only between two base pictograms; text edits only where no constituent reaches an operation along two paths",
+                       "a parent re-connected to another source with the same formal content leaves its children done (the statement speaks of changes that alter the formal content); counted, not reported",
+                       "grid coordinates are not modelled: one distinct cell per pictogram is checked on the implementation"]
+    ctx.constants = {}
+    for pr in ("chain", "diamond", "synt", "empty"):
+        cfg = "Gen_OSS_%s_%s.cfg" % ("q" if ctx.quick else "t", pr)
+        ctx.constants[cfg] = open(os.path.join(vcore.TLA, cfg)).read().split("SPECIFICATION")[0].split()
+        ctx.replay("Gen_OSS.tla", cfg, h, [], tag=cfg[:-4], timeout=3400, xss="64m", xmx="16g")
+    ctx.exhaustive = True
+
+
 MODEL_RULE = ("A: every history of <= MaxLen calls of AddBasicElement / SetBasicText (incl. same-size replacements with other keys) / "
               "SetStructureData / ResetDataFor / SetExpressionFor / Erase / Emplace / Calculate / RecalculateAll from a start model "
               "(X1 = {1,2}, D1 := X1, D2 := D1; 'struct' preset adds S1 : B(X1*X1) with data and projections of it; 'late' preset starts with "
@@ -390,11 +419,11 @@ PLANS = {
     "C16": plan_C16,
     "C15": plan_C15,
     "C17": plan_C17,
-    "C04": plan_C04, "C18": plan_C18, "C11": plan_C11, "C12": plan_C12, "C13": plan_C13, "C07": plan_C07, "C08": plan_C08, "C09": plan_C09, "C10": plan_C10,
+    "C04": plan_C04, "C18": plan_C18, "C11": plan_C11, "C12": plan_C12, "C13": plan_C13, "C19": plan_C19, "C07": plan_C07, "C08": plan_C08, "C09": plan_C09, "C10": plan_C10,
     "C01": plan_C01, "C02": plan_C02, "C03": plan_C03, "C05": plan_C05, "C06": plan_C06,
 }
 
-HARNESS_OF = {"C14": "h_graph", "C20": "h_strings", "C16": "h_sdcompact", "C15": "h_values", "C17": "h_refs", "C04": "h_input", "C18": "h_reuse", "C11": "h_model", "C12": "h_synth", "C13": "h_schema", "C07": "h_schema", "C08": "h_schema", "C09": "h_schema", "C10": "h_schema",
+HARNESS_OF = {"C14": "h_graph", "C20": "h_strings", "C16": "h_sdcompact", "C15": "h_values", "C17": "h_refs", "C04": "h_input", "C18": "h_reuse", "C11": "h_model", "C19": "h_oss", "C12": "h_synth", "C13": "h_schema", "C07": "h_schema", "C08": "h_schema", "C09": "h_schema", "C10": "h_schema",
               "C01": "h_lang", "C02": "h_lang", "C03": "h_lang", "C05": "h_lang", "C06": "h_lang"}
 TRACE_SPEC_OF = {"C14": ("Trace_C14.tla", "Trace_C14.cfg"), "C20": ("Trace_C20.tla", "Trace_C20.cfg"),
                  "C16": ("Trace_C16.tla", "Trace_C16.cfg"), "C15": ("Trace_C15.tla", "Trace_C15.cfg"),
